@@ -774,7 +774,7 @@ class _Parser(object):
                     self._doc_dict,
                     dict(self._user_vars, **{fieldname: item}),
                     ignore_missing_keys=self._ignore_missing_keys,
-                ).parse(cond)
+                )._parse_to_bool(cond)
             ]
         if operator == '$slice':
             if not isinstance(value, list):
